@@ -164,13 +164,18 @@ def run_exe(exe, args=(), stdin=None, timeout=None, env_extra=None, binary=False
     env.update(SAN_ENV)
     if env_extra:
         env.update(env_extra)
+    # always read bytes: the code under test may print arbitrary bytes (e.g. an unterminated abbreviation); text mode would
+    # turn that into a harness exception instead of an observable difference
+    if stdin is not None and not isinstance(stdin, bytes):
+        stdin = stdin.encode("utf-8")
     try:
         p = subprocess.run([exe] + [str(a) for a in args], input=stdin, stdout=subprocess.PIPE,
-                           stderr=subprocess.PIPE, timeout=timeout, env=env,
-                           text=not binary)
+                           stderr=subprocess.PIPE, timeout=timeout, env=env)
     except subprocess.TimeoutExpired as e:
-        return -999, (e.stdout or (b"" if binary else "")), "TIMEOUT"
-    return p.returncode, p.stdout, p.stderr if not binary else p.stderr.decode("utf-8", "replace")
+        out = e.stdout or b""
+        return -999, (out if binary else out.decode("utf-8", "backslashreplace")), "TIMEOUT"
+    return (p.returncode, p.stdout if binary else p.stdout.decode("utf-8", "backslashreplace"),
+            p.stderr.decode("utf-8", "replace"))
 
 
 def pmap(fn, items, procs=None):
